@@ -1,6 +1,7 @@
 package lib
 
 import (
+	"net/url"
 	"encoding/json"
 	"fmt"
 	"io/ioutil"
@@ -466,6 +467,10 @@ func (s *Session) DiagView() map[string][]Diag {
 // Rel turns a URI or absolute path into a workspace-relative path.
 func (s *Session) Rel(uri string) string {
 	p := strings.TrimPrefix(uri, "file://")
+	// a URI is percent-encoded (RFC 3986): what it denotes is the decoded path
+	if u, err := url.PathUnescape(p); err == nil {
+		p = u
+	}
 	if r, err := filepath.Rel(s.Root, p); err == nil {
 		return r
 	}
